@@ -1025,15 +1025,15 @@ def mi_loss(
 
     # Flatten spatial dimensions of inputs
     shape = target.shape
-    input = input.flatten(2)
-    target = target.flatten(2)
+    input = input.flatten(1).unsqueeze(1)
+    target = target.flatten(1).unsqueeze(1)
 
     if mask is not None:
         if mask.ndim < 3 or mask.shape[2:] != shape[2:] or mask.shape[1] != 1:
             raise ValueError(
                 "mi_loss() 'mask' must be tensor of shape (1|N, 1, ..., X) with spatial dimensions matching 'target'"
             )
-        mask = mask.flatten(2)
+        mask = mask.expand(mask.shape[0], *shape[1:]).flatten(1).unsqueeze(1)
 
     # Random image samples, optionally weighted by mask
     if sample_ratio is not None:
